@@ -105,8 +105,27 @@ def run(ctx):
                     v = br.const_value(s["rv"]["b"])
                     if v and v > 1:
                         step = v
+        form = "loop"
+        if shift_lim is None:
+            # unrolled form: the 7-bit groups are placed with constant shift amounts (array literals feeding the shift, or `<< K` literals)
+            ks = set()
+            for i in range(br.n):
+                for s_ in br.stmts(i):
+                    if s_["k"] != "=":
+                        continue
+                    rv = s_["rv"]
+                    if rv["k"] == "agg" and rv.get("ak") == "array":
+                        vs = [br.const_value(o) for o in rv["ops"]]
+                        if vs and all(v is not None for v in vs):
+                            ks |= set(vs)
+                    if rv["k"] == "bin" and rv["op"].startswith("Shl") and rv["b"][0] == "k":
+                        v = br.const_value(rv["b"])
+                        if v is not None:
+                            ks.add(v)
+            if ks and all(k % 7 == 0 for k in ks) and ks == set(range(0, max(ks) + 7, 7)):
+                shift_lim, step, form = max(ks) + 7, 7, "unrolled"
         ok = lim is not None and shift_lim is not None and step == 7 and shift_lim % 7 == 0 and lim == (1 << shift_lim) - 1
-        ctx.ob("size|encoder-limit-equals-decoder-bound", ok, f"write_size rejects above {lim}; read_size allows shift < {shift_lim} in steps of {step} (max {(1 << shift_lim) - 1 if shift_lim else None})", bw.loc())
+        ctx.ob("size|encoder-limit-equals-decoder-bound", ok, f"write_size rejects above {lim}; read_size ({form} form) places 7-bit groups below bit {shift_lim} (max {(1 << shift_lim) - 1 if shift_lim else None})", bw.loc())
         inv = agg_blocks(br, r"sbor::decoder::DecodeError$", "InvalidSize")
         ctx.ob("size|invalid-size-rejections", len(inv) >= 2 and all(doomed(br, s) for s in inv), f"{len(inv)} InvalidSize site(s) (too many groups; trailing zero group), all doomed", br.loc())
         zero = [sb for sb in br.switches() if any(a.kind == "bin" and a.what in ("Eq", "Ne") and 0 in (br.const_value(a.extra["a"]), br.const_value(a.extra["b"])) for a in br.switch_info(sb)["atoms"])]
